@@ -586,6 +586,47 @@ end Influx.Meta
 namespace Influx.Meta
 open Influx.Generated.Meta
 
+/-! ### `PrecreateShardGroups` -/
+
+theorem precreateRP_spec {d : Data} (hwf : WF d) (from_ to : Int) (hto : to ≤ MaxNanoTime) (db : String)
+    (r : RetentionPolicyInfo) (hr : WFRP r) :
+    WF (precreateRP from_ to db d r) ∧ Mono d (precreateRP from_ to db d r) := by
+  unfold precreateRP
+  cases hl : r.ShardGroups.getLast? with
+  | none => exact ⟨hwf, Mono.refl d⟩
+  | some g =>
+    simp only
+    split
+    · next hcond =>
+      simp only [Bool.and_eq_true, Bool.not_eq_true', before_iff, after_iff] at hcond
+      have hg : g ∈ r.ShardGroups := List.mem_of_getLast? hl
+      have hwg := hr.groups g hg
+      have hin : inRange (Time.Add g.EndTime 1) := by
+        have := hwg.lo; have := hwg.ne
+        simp only [inRange, add_eq]; omega
+      cases hrp : getRP d db r.Name with
+      | error e => exact ⟨hwf, Mono.refl d⟩
+      | ok r' =>
+        simp only
+        split
+        · exact ⟨hwf, Mono.refl d⟩
+        · cases hc : createShardGroup d db r.Name (Time.Add g.EndTime 1) with
+          | error e => exact ⟨hwf, Mono.refl d⟩
+          | ok d' =>
+            have := createShardGroup_spec hwf hin hc
+            exact ⟨this.1, this.2.1⟩
+    · exact ⟨hwf, Mono.refl d⟩
+
+theorem precreate_spec {d : Data} (hwf : WF d) (from_ to : Int) (hto : to ≤ MaxNanoTime) :
+    WF (precreateShardGroups d from_ to) ∧ Mono d (precreateShardGroups d from_ to) := by
+  unfold precreateShardGroups
+  apply foldl_inv (fun acc : Data => WF acc ∧ Mono d acc) _ _ _ ⟨hwf, Mono.refl d⟩
+  intro acc di hdi hacc
+  apply foldl_inv (fun acc : Data => WF acc ∧ Mono d acc) _ _ _ hacc
+  intro acc2 r hr hacc2
+  have := precreateRP_spec hacc2.1 from_ to hto di.Name r ((hwf.dbs di hdi).rps r hr)
+  exact ⟨this.1, hacc2.2.trans this.2⟩
+
 /-! ### the state machine -/
 
 /-- the quantifier domain of the meta properties, per operation -/
@@ -595,6 +636,7 @@ def opDom : Op → Prop
   | .csg _ _ t => inRange t
   | .ms _ _ _ ts => ∀ t ∈ ts, inRange t
   | .setdel _ _ _ a => 0 < a ∧ a ≤ MaxNanoTime
+  | .pre _ to => to ≤ MaxNanoTime
   | _ => True
 
 theorem foldl_setDuration_wf (cs : List (String × String × Int)) (d : Data) (h : WF d) :
@@ -671,6 +713,7 @@ theorem step_wf (s : State) (op : Op) (hwf : WF s.data) (hd : opDom op) : WF (st
     exact deletionCheck_wf modelNow_ok _ _ (foldl_setDuration_wf cs _ (clearDurations_wf hwf))
   | setdel db rp id a => exact setDeletedAt_wf hwf db rp id hd
   | dropshard id => exact dropShard_wf hwf id modelNow_ok
+  | pre a b => exact (precreate_spec hwf a b hd).1
 
 theorem init_wf : WF State.init.data := ⟨by simp [State.init], by simp [State.init]⟩
 
@@ -713,6 +756,7 @@ theorem step_mono (s : State) (op : Op) (hwf : WF s.data) (hd : opDom op) (hk : 
   | range db rp a b => simp only [step]; split <;> exact Mono.refl _
   | exp db rp D t => simp only [step]; split <;> exact Mono.refl _
   | store f ids => exact Mono.refl _
+  | pre a b => exact (precreate_spec hwf a b hd).2
   | del | dc | setdel | dropshard => simp [keeps] at hk
 
 end Influx.Meta
